@@ -85,27 +85,26 @@ impl PrettyPrint {
         let spc = " ".repeat(n_spc);
 
         // Left align the text
-        let mut first_non_ws = 0;
-        for (i, c) in text.chars().enumerate() {
-            if !c.is_whitespace() {
-                first_non_ws = i;
-                break;
-            }
-        }
-
-        // HACK: Use the text line so we have the same tab spacing
-        let mut base: String = text
-            .get(first_non_ws..)
-            .unwrap_or_default()
+        let first_non_ws = text
             .chars()
-            .map(|c| if c.is_whitespace() { c } else { ' ' })
-            .collect();
+            .position(|c| !c.is_whitespace())
+            .unwrap_or(0);
 
         // Arrows pointing the the relevant position
         let end = end + 1;
         let arrows = "^".repeat(end.saturating_sub(start));
         let offset = start.saturating_sub(first_non_ws);
-        base.replace_range(offset.., &arrows);
+
+        // HACK: Use the text line so we have the same tab spacing.
+        // Columns count characters, so the line is cut by characters as well.
+        let mut base: String = text
+            .chars()
+            .skip(first_non_ws)
+            .take(offset)
+            .map(|c| if c.is_whitespace() { c } else { ' ' })
+            .collect();
+        base.push_str(&" ".repeat(offset.saturating_sub(base.chars().count())));
+        base.push_str(&arrows);
 
         let aligned = text.trim();
         format!("{spc} |\n {line} | {aligned}\n{spc} | {base}\n")
